@@ -336,6 +336,9 @@ class Rig:
                 rec.update(outcome="exc", exc=type(e).__name__, family=isinstance(e, exc.ProtocolError), msg=str(e)[:200])
             rec["t_done"] = loop.time()
             rec["tick_done"] = self.tick()
+            for fa in case.get("faults", []):  # the application drops the connection right after this send returned
+                if fa["kind"] == "lost-after-done" and fa["caller"] == i:
+                    self._hop(fa.get("hops", 0), self._lose, None)
 
         for i, spec in enumerate(case["callers"]):
             self.frames_by_caller[i] = cmd_frame(self.cmds[spec["cmd"]])
@@ -416,6 +419,12 @@ class Rig:
 
         return {"results": results, "writes": self.writes, "final": final, "probe": probe, "notice": self.notice,
                 "events": self.events, "delivered": self.delivered, "gwy_id": self.gwy_id}
+
+    def _hop(self, hops: int, fn: Any, *args: Any) -> None:
+        if hops > 0:
+            self.loop.call_soon(self._hop, hops - 1, fn, *args)
+        else:
+            fn(*args)
 
     def _lose(self, err: Any) -> None:
         if not self.transport._closing:
